@@ -166,6 +166,9 @@ class InlineTranslator:
                 result_function = AggregateFunction.Sum
             if atom.function not in good[agg.function]:
                 return atom
+            # an element without a tuple has no weight that could be moved
+            if any(map(lambda elem: not elem.terms, agg.elements)):
+                return atom
             # #sum+ skips negative weights and #sum does not
             if agg.function == AggregateFunction.Sum and atom.function == AggregateFunction.SumPlus:
                 return atom
@@ -254,6 +257,9 @@ class InlineTranslator:
             return [stm]
 
         if agg.function not in (AggregateFunction.Count, AggregateFunction.Sum, AggregateFunction.SumPlus):
+            return [stm]
+        # an element without a tuple has no weight that could be moved
+        if any(map(lambda elem: not elem.terms, agg.elements)):
             return [stm]
         # an objective does not skip negative weights as #sum+ does
         if agg.function == AggregateFunction.SumPlus and not self._nonnegative_weights(agg):
